@@ -99,14 +99,14 @@ func show(fset *token.FileSet, n any) string {
 	return b.String()
 }
 
-// member read by an expression: x.F -> F, x.F() -> F, conv(x.F) -> F, literal -> "0"
+// member read by an expression: x.F -> F, x.F() -> F(), conv(x.F) -> F, literal -> "0"
 func member(e ast.Expr) string {
 	switch v := e.(type) {
 	case *ast.SelectorExpr:
 		return v.Sel.Name
 	case *ast.CallExpr:
 		if s, ok := v.Fun.(*ast.SelectorExpr); ok && len(v.Args) == 0 {
-			return s.Sel.Name
+			return s.Sel.Name + "()"
 		}
 		if len(v.Args) == 1 {
 			return member(v.Args[0])
@@ -311,7 +311,7 @@ func describe(path string) *File {
 							continue
 						}
 						if c, ok := kv.Value.(*ast.CallExpr); ok {
-							x.JGet = append(x.JGet, member(c))
+							x.JGet = append(x.JGet, strings.TrimSuffix(member(c), "()"))
 						} else {
 							x.JExp = append(x.JExp, member(kv.Value))
 						}
